@@ -1,7 +1,7 @@
 """C03 -- masked PSF blurring equals true 2-D convolution restricted to the mask."""
 import numpy as np
 from fractions import Fraction
-from harness.common import cz, cq, cnat, cbool, clist, ctup, cres, import_aa, frac, exn_name
+from harness.common import cz, cq, cnat, cbool, clist, ctup, cres, import_aa, frac, exn_name, call_res
 
 ID = "C03"
 GEN = []
@@ -12,7 +12,7 @@ COQ_IMPORTS = ""
 SHARD = 60
 RULE = ("random masks (densities 0.1-0.9, plus single pixels, rings with holes, two components) inside frames up to 9x9 whose kernel "
         "footprint stays inside the frame; kernels kh,kw in {1,3,5,7} independently with signed integer / quarter entries, asymmetric; "
-        "images, blurring images and mapping matrices with integer or k/4 entries of either sign, dense and sparse (zeros included); a "
+        "images, blurring images and mapping matrices with integer, k/4 or tiny (k/8192) entries of either sign, dense and sparse (zeros included); for small masks the whole operator on every unit image / unit blurring image; a "
         "separate malformed stream (even kernels, footprints leaving the frame). Entry points: Convolver.convolve_image / "
         "convolve_image_no_blurring / convolve_mapping_matrix, Kernel2D.convolved_array_from / convolved_array_with_mask_from, "
         "SimulatorImaging.via_image_from -> apply_mask -> convolver (zero residual). Non-trivial = at least 2 unmasked pixels and a "
@@ -58,12 +58,13 @@ def rand_vals(rng, n, sparse):
     out = []
     for _ in range(n):
         if sparse and rng.random() < 0.5: out.append(Fraction(0))
+        elif rng.random() < 0.12: out.append(Fraction(rng.choice([-3, -1, 1, 3]), 8192))   # tiny but non-zero (a sparsity threshold would drop it)
         elif rng.random() < 0.3: out.append(Fraction(rng.randint(-20, 20), 4))
         else: out.append(Fraction(rng.randint(-9, 9)))
     return out
 
 def gen_inputs(tier, rng):
-    n = 2500 if tier == "thorough" else 220
+    n = 2000 if tier == "thorough" else 180
     styles = ["random", "random", "random", "single", "ring", "full"]
     for i in range(n):
         kh, kw = rng.choice(KS), rng.choice(KS)
@@ -75,6 +76,13 @@ def gen_inputs(tier, rng):
         seed = rng.randrange(10 ** 9)
         for op in (["convolve", "noblur", "matrix", "init"] if i % 3 else ["convolve", "matrix", "whole", "init"]):
             yield {"op": op, "m": m, "K": [[str(v) for v in r] for r in K], "seed": seed, "sparse": bool(i % 2)}
+        # the whole operator, extracted on basis images (unit image / unit blurring image), for small masks
+        nb = sum(1 for y in range(H) for x in range(W) if m[y][x] and any(
+            not m[yy][xx] for yy in range(max(0, y - kh // 2), min(H, y + kh // 2 + 1))
+            for xx in range(max(0, x - kw // 2), min(W, x + kw // 2 + 1))))
+        if i % 6 == 3 and nun + nb <= 14:
+            for k in range(nun + nb):
+                yield {"op": "convolve", "m": m, "K": [[str(v) for v in r] for r in K], "seed": seed, "sparse": False, "basis": k}
     # malformed stream: even kernels, footprints leaving the frame
     for i in range(60 if tier == "thorough" else 20):
         kh, kw = rng.choice([1, 2, 3, 4, 5]), rng.choice([1, 2, 3, 4, 5])
@@ -83,6 +91,8 @@ def gen_inputs(tier, rng):
         if all(all(r) for r in m): m[0][0] = False
         K = rand_kernel(rng, kh, kw)
         yield {"op": "init", "m": m, "K": [[str(v) for v in r] for r in K], "seed": 0, "sparse": False}
+        # Kernel2D.convolved_array(_with_mask)_from has its own odd-kernel check and no footprint condition
+        yield {"op": "whole", "m": m, "K": [[str(v) for v in r] for r in K], "seed": i, "sparse": False}
     for i in range(40 if tier == "thorough" else 6):
         yield {"op": "simulate", "seed": rng.randrange(10 ** 9)}
 
@@ -117,20 +127,23 @@ def run_case(inp):
         native = [[Fraction(rng.randint(-9, 9)) for _ in range(len(m[0]))] for _ in range(len(m))]
         arr = aa.Array2D.no_mask(values=[fl(r) for r in native], pixel_scales=1.0)
         if inp["seed"] % 2:
-            res = kernel.convolved_array_with_mask_from(array=arr.native, mask=mask)
+            res = call_res(kernel.convolved_array_with_mask_from, array=arr.native, mask=mask)
         else:
             # convolved_array_from convolves array.native (zero outside the array's own mask) and slims by that mask
             arr = aa.Array2D(values=[fl(r) for r in native], mask=mask)
             native = [[Fraction(0) if m[y][x] else native[y][x] for x in range(len(m[0]))] for y in range(len(m))]
-            res = kernel.convolved_array_from(array=arr)
-        out = [frac(x) for x in np.array(res.slim)]
-        return dict(base, coq=f"(KWhole {cmask(m)} {cqm(native)} {cqm(K)} {cqv(out)})", out=[str(x) for x in out])
+            res = call_res(kernel.convolved_array_from, array=arr)
+        out = ("ok", [frac(x) for x in np.array(res[1].slim)]) if res[0] == "ok" else res
+        return dict(base, coq=f"(KWhole {cmask(m)} {cqm(native)} {cqm(K)} {cres(out, cqv)})", out=str(out)[:300])
     c = aa.Convolver(mask=mask, kernel=kernel)
     img = rand_vals(rng, nun, inp["sparse"])
     if op == "convolve":
         bm = mask.derive_mask.blurring_from(kernel_shape_native=(kh, kw))
         nb = int(bm.pixels_in_mask)
         bimg = rand_vals(rng, nb, inp["sparse"])
+        if inp.get("basis") is not None:
+            e = [Fraction(int(j == inp["basis"])) for j in range(nun + nb)]
+            img, bimg = e[:nun], e[nun:nun + nb]
         res = c.convolve_image(image=aa.Array2D(values=fl(img), mask=mask),
                                blurring_image=aa.Array2D(values=fl(bimg), mask=bm) if nb else aa.Array2D(values=np.zeros(0), mask=bm))
         out = [frac(x) for x in np.array(res.slim)]
